@@ -337,6 +337,7 @@ class FakeK8s:
         self.policy: Callable[[Req], Plan | None] | None = None
         self.watch_policy: Callable[[Watch, dict[str, Any]], bool] | None = None   # True = deliver now
         self.valid_gens: set[int] | None = None       # None: credentials are not checked
+        self.keep_bodies: set[str] = set()            # plurals whose PATCH bodies are recorded
         self.posted_events: list[dict[str, Any]] = []
         self.projector: Callable[[ResDef, dict[str, Any]], Any] | None = None   # abstract state for the traces
         self.add_resource(ResDef('', 'v1', 'namespaces', 'Namespace', namespaced=False))
@@ -638,5 +639,7 @@ class FakeK8s:
             body, changed = self._after_write(res, key, old, new, req.session.owner, f'{r["ptype"]}{"/status" if sub else ""}')
             req.info = {'uid': old['metadata']['uid'], 'rv_after': _rvint(body['metadata']['resourceVersion']), 'changed': changed,
                         'gone': key not in self.objs, 'proj': self._proj(res, body)}
+            if res.plural in self.keep_bodies:
+                req.info['pbody'] = copy.deepcopy(req.body)
             return Resp(200, body)
         return Resp(405, status_payload(405, 'method not allowed'))
